@@ -18,7 +18,7 @@ PROPERTY = 'C06'
 LEAN_TARGETS = ['PxProofs.C06']
 THEOREMS = [
     'Px.First.C06_total', 'Px.First.C06_exclusive', 'Px.First.C06_trace', 'Px.First.C06_reject_stops_reading',
-    'Px.First.C06_crash_escapes', 'Px.First.C06_former_hangs_terminate', 'Px.Parser.C06_parse_fuel_partial',
+    'Px.First.C06_crash_escapes', 'Px.Parser.C06_parse_fuel', 'Px.Parser.C06_former_hangs_terminate',
     'Px.Wf.C06_canned', 'Px.Wf.C06_canned_built', 'Px.Wf.C06_builders', 'Px.Wf.C06_builders_ok',
     'Px.Wf.C06_builders_redirect', 'Px.Wf.C06_builders_rejected', 'Px.Wf.C06_builders_ws',
     'Px.Wf.C06_builder_injection_witness', 'Px.Wf.C06_ws_handshake_cl_witness',
@@ -41,27 +41,47 @@ ASSUMPTIONS = [
 ]
 EXHAUSTIVE = {}
 
-HANG_S = 8
+HANG_CPU_S = 10      # an endless loop burns CPU: decisive, and robust against a loaded machine
+HANG_WALL_S = 50     # wall-clock guard (below the engine's per-case limit)
 
 
 class Hang(BaseException):
     """not an Exception: `except Exception` inside the implementation must not swallow the guard"""
 
 
+def _on_prof(signum, frame):
+    raise Hang('cpu')
+
+
 def _on_alarm(signum, frame):
-    raise Hang()
+    raise Hang('wall')
 
 
 def guarded(fn, *a):
-    old = signal.signal(signal.SIGALRM, _on_alarm)
-    signal.setitimer(signal.ITIMER_REAL, HANG_S)
-    try:
-        return fn(*a)
-    except Hang:
-        return 'hang'
-    finally:
-        signal.setitimer(signal.ITIMER_REAL, 0)
-        signal.signal(signal.SIGALRM, old)
+    """Run fn; a run that does not come back is the result 'hang'.  The CPU-time limit is decisive;
+    when only the wall clock expired although the process got almost no CPU (starved by other jobs
+    on the machine) the attempt is repeated before it is called a hang."""
+    import time
+    for attempt in range(3):
+        old_a = signal.signal(signal.SIGALRM, _on_alarm)
+        old_p = signal.signal(signal.SIGPROF, _on_prof)
+        t0 = time.process_time()
+        signal.setitimer(signal.ITIMER_REAL, HANG_WALL_S)
+        signal.setitimer(signal.ITIMER_PROF, HANG_CPU_S)
+        try:
+            return fn(*a)
+        except Hang as e:
+            if e.args == ('wall',) and time.process_time() - t0 < HANG_CPU_S / 2 and attempt < 2:
+                continue
+            if e.args == ('cpu',) and attempt < 1:
+                continue        # once more: the first call in a process also pays for imports
+            return 'hang'
+        finally:
+            signal.setitimer(signal.ITIMER_PROF, 0)
+            signal.setitimer(signal.ITIMER_REAL, 0)
+            signal.signal(signal.SIGPROF, old_p)
+            signal.signal(signal.SIGALRM, old_a)
+    return 'hang'
 
 
 # --------------------------------------------------------------------------------------------
@@ -443,7 +463,9 @@ def _oracle(case):
         if k == 'ok' and case['content'] is not None:
             # framing carries exactly the (possibly compressed) content
             head, _, body = r.partition(b'\r\n\r\n')
-            plain = gzip.decompress(body) if b'Content-Encoding: gzip' in head else body
+            content = bytes.fromhex(case['content'])
+            compressed = bool(case['compress']) and len(content) > case['minlen']
+            plain = gzip.decompress(body) if compressed else body
             if plain != bytes.fromhex(case['content']):
                 return 'ok-response-body-differs-from-content'
         return None
@@ -509,6 +531,15 @@ def is_token(x):
 
 def field_ok(x):
     return all(c in (9, 32) or 33 <= c <= 126 or c >= 128 for c in x)
+
+
+def _warm():
+    """import the implementation and run one connection in the parent, so that forked workers do
+    not each pay for it inside a guarded case"""
+    import h11  # noqa: F401
+    drive({'kind': 'run', 'web': 1, 'plan': 'refuse', 'segs': [b'GET http://h/ HTTP/1.1\r\n\r\n'.hex()]})
+    drive({'kind': 'run', 'web': 0, 'plan': 'ok', 'segs': [b'CONNECT h:443 HTTP/1.1\r\n\r\n'.hex()]})
+    h11_check(b'HTTP/1.1 204 No Content\r\n\r\n')
 
 
 def in_guard(case):
@@ -699,7 +730,9 @@ def damage_all(raw):
     out.append(raw[:9] + b'4x0' + raw[12:])                            # status code not 3DIGIT
     out.append(lines[0] + b'\r\nNoColonHere\r\n' + b'\r\n'.join(lines[1:]) + sep + body)
     out.append(lines[0] + b'\r\nBad Name: v\r\n' + b'\r\n'.join(lines[1:]) + sep + body)
-    if b'Content-Length: 0' in head:
+    code = raw[9:12]
+    bodyless = code[:1] == b'1' or code in (b'204', b'304')      # h11 ignores Content-Length there
+    if b'Content-Length: 0' in head and not bodyless:
         out.append(raw.replace(b'Content-Length: 0', b'Content-Length: 7', 1))        # announces more than is sent
         out.append(raw + b'surplus')                                                   # sends more than announced
         out.append(raw.replace(b'Content-Length: 0', b'Content-Length: zero', 1))
@@ -868,3 +901,6 @@ def nontrivial(case):
     if case['kind'] == 'run':
         return True
     return case['kind'] != 'wf' and in_guard(case)
+
+
+_warm()
